@@ -41,7 +41,7 @@ CLASS_LISTS = [[], [4], [3, 4], [4, 4], [7], [1], [37], [31], [4, 7, 3], [7, 37]
 SUB_LISTS = [[], [0x40c], [0x40c, 0x40e], [0x401]]      # BSD subclasses only (the scope of the statement)
 
 
-def gen_dump(rnd, big=False, allow_zero_tid=True, residue_case=False, world=None, orphans=0.0, samples=0.0, learn=0.0, logs=False):
+def gen_dump(rnd, big=False, allow_zero_tid=True, residue_case=False, world=None, orphans=0.0, samples=0.0, learn=0.0, logs=False, declared_terminate=False, remap_in_sample=False):
     w = world or World(rnd, big_tids=False, allow_zero_tid=allow_zero_tid)
     g = gen.ProgGen(w, rnd, ntids=3, noise=0.02)
     pids = {1: 11, 2: 12, 3: rnd.choice([13, 0])}
@@ -94,12 +94,31 @@ def gen_dump(rnd, big=False, allow_zero_tid=True, residue_case=False, world=None
             items.append([w.perf(1, t, ti=rnd.random() < 0.5, us=True), w.uhdr(t, 3), w.udata(t, fr),
                           w.thd(t, 12, t), w.perf(2, t, us=True)])
     rnd.shuffle(items)
+    if remap_in_sample:
+        # INSIDE a sampler window of thread t (after its thread-info record) another thread re-announces t with another
+        # process; the sample's END re-asserts the sampler's mapping (unfiltered run) - later records of t show it
+        t, o = rnd.sample([1, 2, 3], 2)
+        fr = [rnd.randrange(0, 9) for _ in range(4)]
+        items = [[w.perf(1, t, ti=True, us=True), w.uhdr(t, 3), w.udata(t, fr), w.thd(t, 12, t), w.ntd(o, t, 14), w.nts(o, 'remapped'),
+                  w.perf(2, t, ti=True, us=True)], [w.sys('BSC_getpid', 0, t)], [w.term(o, t)], [w.sys('BSC_getpid', 3, t)]] + items
+    if declared_terminate:
+        # a sampler thread-info record (helper class PERF) declares thread 3's process; later a record of another thread NAMES
+        # thread 3 (its text reads the table)
+        items += [[w.thd(1, 14, 3)], g.ord_single(2), [w.term(2, 3)], g.ord_single(3)]
     if residue_case:      # a sample BEFORE the image that covers its frames is announced, then the announcement, then a sample
         t = rnd.randrange(1, 4)
         fr = [rnd.randrange(2, 9) for _ in range(4)]
         smp = lambda: [w.perf(1, t, ti=False, us=True), w.uhdr(t, 4), w.udata(t, fr), w.perf(2, t, us=True)]
         items = [smp(), [w.img(t, rnd.randrange(0, 3), rnd.randrange(1, 6))], smp()] + items
     stream = [e for it in items for e in it]
+    if not residue_case and not declared_terminate and not remap_in_sample and rnd.random() < 0.5:
+        # the per-CPU buffers merged: every thread's records keep their order, records of OTHER threads fall inside its
+        # windows (a parent's announcement inside a sampler window of the announced thread ...)
+        per = {}
+        for it in items:
+            if it:
+                per.setdefault(it[0].abs['tid'], []).extend(it)
+        stream = gen.interleave(rnd, list(per.values()), burst=rnd.choice([1, 2, 4]))
     tmap = [(t, pids[t], names[pids[t]]) for t in rnd.sample([1, 2, 3], rnd.randrange(0, 4))]
     if logs:
         # a version-3 dump with log records (thread 0 = no thread; a record naming a process and a thread extends the tables)
@@ -153,7 +172,7 @@ def run(ctx):
     ncli = [0]
     ntext = 0
     for i in range(250 if ctx.quick else 5000):
-        w, dump = gen_dump(rnd, big=not ctx.quick and i % 4 == 0, residue_case=(i % 10 == 5))
+        w, dump = gen_dump(rnd, big=not ctx.quick and i % 4 == 0, residue_case=(i % 10 == 5), remap_in_sample=(i % 10 == 7))
         # the unfiltered run of the code (fresh object): identity -> text
         ref = PyKdebugParser()
         base, btexts = request(w, ref, dump, 'traces')
